@@ -52,7 +52,8 @@ def gen_case(seed, idx, profile):
     ops = []
     nmaps = [0]
     nres = [0]
-    unique_names = profile != "names" and rnd.random() < 0.8
+    unique_names = profile == "alloc" or (profile == "tree" and rnd.random() < 0.8)
+    ucount = [0]
     big = profile == "alloc" and rnd.random() < 0.15
 
     def new(aw, dw, al):
@@ -62,12 +63,15 @@ def gen_case(seed, idx, profile):
         return h
 
     def name():
-        return gen_name(rnd, wide=unique_names)
+        if unique_names:          # C02/C03 histories: naming never decides acceptance
+            ucount[0] += 1
+            return ("n%d" % ucount[0],) if rnd.random() < 0.7 else ("n%d" % ucount[0], rnd.randrange(3))
+        return gen_name(rnd)
 
     def populate(h, aw, dw, al, depth):
         nops = rnd.randint(2, 9 if profile != "alloc" else 14)
         for _ in range(nops):
-            kinds = ["res"] * 5 + ["align", "all"]
+            kinds = ["res"] * 5 + ["align"]
             if depth > 0:
                 kinds += ["win"] * (4 if profile == "tree" else 2)
             if profile == "alloc":
@@ -81,8 +85,6 @@ def gen_case(seed, idx, profile):
                     ops.append(("handoff", h, rnd.choice(["periph", "bridge"])))
             elif k == "align":
                 ops.append(("align", h, rnd.choice([0, 1, 2, 3, BAD]) if profile == "alloc" else rnd.randint(0, 3)))
-            elif k == "all":
-                ops.append(("all", h))
             elif k in ("res", "badres"):
                 rid = nres[0]
                 nres[0] += 1
@@ -90,12 +92,14 @@ def gen_case(seed, idx, profile):
                     rid = rnd.randrange(rid)          # try to add an object again
                 hi = 1 << aw
                 size = rnd.choice([0, 1, 1, 2, 3, 4, 5, 8, hi, hi // 2 or 1])
-                if rnd.random() < 0.55:
+                if profile == "names":
+                    size = 1
+                if rnd.random() < 0.55 or profile == "names":
                     addr = None
                 else:
                     addr = rnd.choice([rnd.randrange(0, hi + 2), rnd.randrange(0, hi, 1 << al),
                                        rnd.randrange(0, hi, 1 << al), max(0, hi - size)])
-                pal = rnd.choice([None, None, 0, 1, 2, 3])
+                pal = rnd.choice([None, None, 0, 1, 2, 3]) if profile != "names" else None
                 nm = name()
                 if k == "badres":
                     which = rnd.choice(["size", "addr", "al", "name"])
@@ -105,11 +109,13 @@ def gen_case(seed, idx, profile):
                     else: nm = BAD
                 ops.append(("res", h, rid, nm, size, addr, pal))
             else:
-                caw = rnd.randint(1, aw)
-                mode = rnd.random()
+                caw = rnd.randint(1, aw) if profile != "names" else max(2, aw - 4)
+                mode = rnd.random() if profile != "names" else rnd.random() * 0.75
                 leaf = False
                 if mode < 0.55:
                     cdw, cal, sparse = dw, rnd.choice([0, 0, 1, 2]), rnd.choice([None, None, True, False])
+                    if profile == "names":
+                        cal = 0
                 elif mode < 0.75:
                     cdw = rnd.choice([x for x in (1, 2, 4, 8, 16) if x < dw] or [dw])
                     cal, sparse = rnd.choice([0, 1]), rnd.choice([True, True, None])
@@ -123,7 +129,7 @@ def gen_case(seed, idx, profile):
                 ch = new(caw, cdw, cal)
                 populate(ch, caw, cdw, cal, 0 if leaf else depth - 1)
                 wname = None if rnd.random() < 0.4 else name()
-                if rnd.random() < 0.6:
+                if rnd.random() < 0.6 or profile == "names":
                     waddr = None
                 else:
                     waddr = rnd.choice([rnd.randrange(0, 1 << aw), (rnd.randrange(0, 1 << aw) >> caw) << caw])
@@ -133,14 +139,19 @@ def gen_case(seed, idx, profile):
 
     if big:
         aw = rnd.choice([16, 32, 64])
+    elif profile == "names":
+        aw = 20
     else:
         aw = rnd.randint(2, 8)
     dw = rnd.choice([8, 16, 32])
-    al = rnd.choice([0, 0, 1, 2])
+    al = rnd.choice([0, 0, 1, 2]) if profile != "names" else 0
     root = new(aw, dw, al)
     populate(root, aw, dw, al, 3 if profile != "alloc" else 2)
-    ops.append(("all", root))
-    if profile == "tree" or (profile != "alloc" and not big):
+    if profile == "names":
+        ops.append(("all", root))
+    if profile == "tree":
+        ops.append(("dump", root))
+        ops.append(("all", root))
         if aw <= 10:
             ops.append(("decodeall", root))
         for rid in range(nres[0]):
@@ -198,11 +209,21 @@ def run_impl(case):
         m = maps[h]
         return (fmt_res(m), fmt_win(m, h))
 
+    profile = case["profile"]
+    win_order = {}   # h -> child handles in insertion order
+
     def emit(line, ob):
+        if profile == "tree" and not line.split()[0] in ("map", "r", "w", "order", "all", "decodeall", "find"):
+            return                    # C03 compares lookups over the dumped structure only
+        if profile == "names":
+            ob = mask_names(ob)
         lines.append(line)
-        obs.append(ob)
+        if not line.split()[0] in ("map", "r", "w", "order"):
+            obs.append(ob)
 
     def probe(h):
+        if profile != "alloc":
+            return
         m = maps[h]
         emit(f"align {h} 0", f"ok {m.align_to(0)}")
         emit(f"resources {h}", fmt_res(m))
@@ -270,6 +291,10 @@ def run_impl(case):
                     stats["refused"] += 1
                 if snapshot(h) != before or m.align_to(0) != cur_before:
                     fails.append(("C02", "refused add_resource changed the map", len(obs)))
+                if (profile == "names" and res == "refused" and nm != BAD and BAD not in (size, addr, pal)
+                        and not frozen[h] and not any(it["kind"] == "res" and it["id"] == rid for it in handed[h])
+                        and not any(related(nm, v) for v in visible[h])):
+                    fails.append(("C18", f"legal name {nm} refused (visible: {sorted(visible[h], key=str)[:6]})", len(obs)))
                 if nm != BAD and BAD not in (size, addr, pal):
                     for v in visible[h]:
                         if tuple(v) == tuple(nm): stats["conf_eq"] += 1
@@ -290,6 +315,7 @@ def run_impl(case):
             emit(f"win {h} {ch} {enc_name(wname)} {o(waddr)} {'-' if sparse is None else int(sparse)}", res)
             if res.startswith("ok"):
                 wchild[(h, id(c))] = ch
+                win_order.setdefault(h, []).append(ch)
                 stats["win"] += 1
                 if r > 1: stats["dense"] += 1
                 if wname is None: stats["anon"] += 1
@@ -328,6 +354,12 @@ def run_impl(case):
                     stats["refused"] += 1
                 if snapshot(h) != before or m.align_to(0) != cur_before:
                     fails.append(("C02", "refused add_window changed the map", len(obs)))
+                qs = [tuple(wname)] if wname is not None else sorted(visible[ch], key=str)
+                if (profile == "names" and res == "refused" and not frozen[h]
+                        and not any(it["kind"] == "win" and it["id"] == ch for it in handed[h])
+                        and (c.data_width == m.data_width or sparse is True)
+                        and not any(related(q, v) for q in qs for v in visible[h])):
+                    fails.append(("C18", f"legal window name(s) {qs[:4]} refused", len(obs)))
             probe(h)
             # a child handed to a parent must refuse further additions (checked via its own probe)
         elif kind == "align":
@@ -338,7 +370,7 @@ def run_impl(case):
             except Exception as ex:
                 res = classify(ex)
             emit(f"align {h} {a}", res)
-            if res.startswith("ok"):
+            if res.startswith("ok") and a != BAD:
                 exp = align_up(cursor[h], max(a, m.alignment))
                 if int(res.split()[1]) != exp:
                     fails.append(("C02", f"align_to({a}) returned {res}, expected {exp}", len(obs)))
@@ -368,6 +400,33 @@ def run_impl(case):
             except Exception as ex:
                 res = classify(ex)
             emit(f"handoff {h} {how}", res)
+        elif kind == "dump":
+            # local structure of every map below the root, children first (C03: the model's
+            # traversals run over exactly the structure the real maps report locally)
+            done = set()
+
+            def dump(h):
+                if h in done:
+                    return
+                done.add(h)
+                m = maps[h]
+                items = [(s_, 0, r, n) for r, n, (s_, e_) in m.resources()] + \
+                        [(s_, 1, w, n) for w, n, (s_, e_, r_) in m.windows()]
+                for _, isw, w, n in items:
+                    if isw:
+                        dump(wchild[(h, id(w))])
+                lines.append(f"map {h} {m.data_width}")
+                rs = {id(r): (s_, e_) for r, n, (s_, e_) in m.resources()}
+                wsd = {id(w): (s_, e_, r_) for w, n, (s_, e_, r_) in m.windows()}
+                for _, isw, x, n in sorted(items, key=lambda t: t[0]):
+                    if isw:
+                        s_, e_, r_ = wsd[id(x)]
+                        lines.append(f"w {h} {wchild[(h, id(x))]} {enc_name(None if n is None else tuple(n))} {s_} {e_} {r_}")
+                    else:
+                        s_, e_ = rs[id(x)]
+                        lines.append(f"r {h} {ids[id(x)]} {enc_name(tuple(n))} {s_} {e_}")
+                lines.append("order " + " ".join(map(str, [h] + win_order.get(h, []))))
+            dump(op[1])
         elif kind == "all":
             _, h = op
             try:
@@ -386,7 +445,7 @@ def run_impl(case):
             for a in range(1 << m.addr_width):
                 d = m.decode_address(a)
                 dec.append("-" if d is None else str(ids[id(d)]))
-            emit(f"decodeall {h}", "decodeall " + " ".join(dec))
+            emit(f"decodeall {h} {m.addr_width}" if profile == "tree" else f"decodeall {h}", "decodeall " + " ".join(dec))
             # ---- C03 oracle: decode ⇔ reported ranges; sorted; disjoint
             owner = ["-"] * (1 << m.addr_width)
             last_end = 0
@@ -433,3 +492,12 @@ def run_impl(case):
 
 class _Skip(Exception):
     pass
+
+
+def mask_names(line):
+    """C18 compares acceptance and reported paths only (not addresses, sizes or widths)"""
+    if line.startswith("ok"):
+        return "ok"
+    if line.startswith("all "):
+        return "all " + " ".join(x.split(":")[0] for x in line.split()[1:])
+    return line
